@@ -111,10 +111,16 @@ fn words_pos(src: &str) -> Vec<(String, usize, usize)> {
                 i += 1;
             }
             i += 1;
-        } else if c == b'{' {
+        } else if c == b'{' && src[i..].starts_with("{{{") {
+            // embed body: raw text up to `}}}`
+            match src[i..].find("}}}") {
+                Some(e) => i += e + 3,
+                None => i = b.len(),
+            }
+        } else if c == b'{' || c == b'(' {
             depth += 1;
             i += 1;
-        } else if c == b'}' {
+        } else if c == b'}' || c == b')' {
             depth = depth.saturating_sub(1);
             i += 1;
         } else if c.is_ascii_alphabetic() || c == b'_' {
@@ -181,7 +187,11 @@ pub fn plain_components(src: &str) -> Vec<(bool, String)> {
             continue;
         }
         let rest = src[*end..].trim_start();
-        if rest.starts_with("::<") {
+        if !(rest.starts_with('{') || rest.starts_with('#') || rest.starts_with('(') || rest.starts_with("for ")) {
+            continue;
+        }
+        if name.starts_with("test") {
+            // `#[test]` items of a dependency are not analysed
             continue;
         }
         out.push((word == "module", name.clone()));
